@@ -140,6 +140,7 @@ def run(ctx):
     _K.accumulator_reset(ctx, rule="R06.9")  # variance sum kernel: same loop-shape obligations as C15 / C05
     _K.accumulator_complete(ctx, rule="R06.9")
     _K.build_independent(ctx, rule="R06.9")
+    _K.kernel_shape(ctx, rule="R06.9")
     _K.full_extent(ctx, rule="R06.9")
     _K.zero_init(ctx, rule="R06.9")
     from .C05 import kernel_sums
